@@ -365,3 +365,36 @@ class C19(Check):
                                     second=1 if interval != 1.5 else None))
         specs.append(S.SENS(0, horizon=1.0, interval=0.1, cap=3, n=0))
         return _line_jobs(specs, ['sensors'], tier)
+
+
+@check
+class C20(Check):
+    prop = 'C20'
+    rule = ('(a) line worlds: every kind of asset (source+handler+sink forming a new line, processor, maintainer, action '
+            'scheduler, periodic sensor, output-part sensor, CMS, buffer, batcher+gate+sink) created from inside an event at '
+            'every injection position (before the head event, between two instants, last of the instant) of a running line and, '
+            'with the run split into consecutive simulate() calls, between two runs; K=1 creation on the whole family, K=2 '
+            '(creation followed by a work order on the late maintainer / a failure of the late machine / a second creation); '
+            'all tie-break orders; (b) registry world: every sequence of <=D operations from {create System, create asset of '
+            'each kind, simulate(d) on the newest / on a stale system}; non-trivial = an asset was created late and look-up was checked')
+    level_text = ('After every event: registered assets = creation order, each initialised exactly once (logging wrapper around '
+                  'Asset.initialize) and never again on continuation, find_assets = filter of the registered list for all 144 '
+                  'filter combinations; a late-created asset must satisfy, from its creation time on, the same reference models '
+                  'as one created up front: source cycle (C06), processor uptime/utilisation (C13), timetable (C18), sampling '
+                  'schedule (C19), conservation (C02), no lost wake-up (C03), faithful records (C15).')
+    nontrivial = _fact_nontrivial('lookup_checked')
+    MONS = ['lifecycle', 'census', 'cycle', 'shutdown', 'schedule', 'sensors', 'wakeup', 'data']
+
+    def jobs(self, tier):
+        th = tier != 'quick'
+        specs = [S.LATE(1), S.with_splits(S.LATE(1, horizon=4)),
+                 S.LATE(2, horizon=4, name='2', ops=[['create', 5], ['wo', 'M1', 'x'], ['create', 3, 4], ['fail', 'M2', 0],
+                                                     ['create', 0, 1, 2], ['create', 7]])]
+        if th:
+            specs += [S.LATE(2, horizon=4, name='3'), S.with_splits(S.LATE(2, horizon=3, name='4'), 1)]
+        jobs = _line_jobs(specs, self.MONS, tier, e2q=6, e2t=20)
+        from .comp import comp_job, split_first
+        D = 5 if th else 4
+        jobs.append(comp_job('life', 'LIFE[empty,D3]', {'depth': 3, 'presys': 0}, e2=10))
+        jobs += split_first('life', f'LIFE[1 system,D{D}]', {'depth': D, 'presys': 1}, e2=5, max_states=2000000, max_seconds=3000)
+        return jobs
